@@ -7,6 +7,7 @@
 //! tests of the replay harness (replay/src/conformance.rs), which build the real values
 //! and compare; see DESIGN.md section 2.2.
 #![allow(unused_imports, dead_code, non_snake_case)]
+extern crate alloc;
 use proc_macro2::{Span, TokenStream};
 use quote::ToTokens;
 use vstd::prelude::*;
@@ -310,7 +311,7 @@ ext_opaque!{
     ExPatConst => syn::PatConst, ExPatLit => syn::PatLit, ExPatMacro => syn::PatMacro, ExPatOr => syn::PatOr,
     ExPatParen => syn::PatParen, ExPatPath => syn::PatPath, ExPatRange => syn::PatRange, ExPatReference => syn::PatReference,
     ExPatRest => syn::PatRest, ExPatSlice => syn::PatSlice, ExPatStruct => syn::PatStruct, ExPatTuple => syn::PatTuple,
-    ExPatTupleStruct => syn::PatTupleStruct, ExPatTypeP => syn::PatType, ExPatWild => syn::PatWild,
+    ExPatTupleStruct => syn::PatTupleStruct, ExPatWild => syn::PatWild,
     ExAt => syn::token::At,
 }
 verus! {
@@ -334,6 +335,7 @@ verus! {
 #[verifier::external_type_specification] pub struct ExPredicateType(syn::PredicateType);
 #[verifier::external_type_specification] pub struct ExPat(syn::Pat);
 #[verifier::external_type_specification] pub struct ExPatIdent(syn::PatIdent);
+#[verifier::external_type_specification] pub struct ExPatType(syn::PatType);
 }
 syn_node_toks!{
     syn::Signature, signature_toks;
@@ -398,6 +400,14 @@ pub assume_specification<'a, T, P>[ <syn::punctuated::Pairs<'a, T, P> as core::i
 }
 
 verus! {
+// ------------------------------------------------------------------ core / alloc
+/// the length of a slice is a usize
+pub axiom fn axiom_slice_len<T>(s: &[T])
+    ensures #[trigger] s@.len() <= usize::MAX;
+
+pub assume_specification<T: ?Sized, A: core::alloc::Allocator>[ <alloc::boxed::Box<T, A> as core::convert::AsRef<T>>::as_ref ](b: &alloc::boxed::Box<T, A>) -> (r: &T)
+    ensures r == &**b;
+
 // ------------------------------------------------------------------ errors, spans
 pub uninterp spec fn err_msg(e: &syn::Error) -> Seq<char>;
 pub uninterp spec fn display_str<T>(x: T) -> Seq<char>;
